@@ -39,6 +39,7 @@ def run(prog, chk):
     PC.check_receive_calendar(prog, chk, "C04.receive")
     chk.rule("C04.rightlinks", "CAL-04: the extender's right links are exactly the signature's right links (scenario table over link lists)", floor=10)
     PC.check_right_links(prog, chk, "C04.rightlinks")
+    chk.defer(aggregation_output_table, prog, chk)
 
 
 def extended_chain_table(prog, chk):
@@ -192,3 +193,45 @@ def certificate_time_table(prog, chk):
         if len(paths) != 1 or paths[0].undetermined or not isinstance(paths[0].ret, int):
             raise AnalysisBroken("ASN1_GetTimeT: evaluation not determined for %s: %s %s" % (inst, [(q.ret, q.undetermined[:1]) for q in paths], seen))
         chk.ob("C04.certtime", inst, paths[0].ret == want, "expected %s, source gives %s (fields %s)" % (want, paths[0].ret, seen), loc=fa.loc(), fn=fa)
+
+
+def aggregation_output_table(prog, chk):
+    """Three anchor rules (CAL-02, PUB-03 and the publications-file twin) compare the extender's input hash with the signature's
+    aggregation root, which initAggregationOutputHash computes on first use.  When that computation fails (an allocation in the
+    hashing, say) there is no root: the helper must say so - the rules turn its error into "inconclusive, error status" - and not
+    report success with the root missing, which the comparison that follows reads as "hashes differ" = FAIL for a good signature.
+    Evaluated: root already there / computed now / computation fails."""
+    from ksirules.interp import TOP, Interp, Ptr, succeed_model, inline_model, unit_helpers
+    from ksirules.model import lvalue_key, strip
+    chk.rule("C04.aggout", "the aggregation root used by the anchor rules: a failed computation is reported as an error, never as success without a root", floor=3)
+    fn = prog.fn("initAggregationOutputHash", "verification_rule.c")
+    ip = fn.params[0]["n"]
+    for label, have, fails in (("root already computed", 1, False), ("root computed now", 0, False), ("the computation fails", 0, True)):
+        calls = []
+
+        def aggregate(I, p, node, args):
+            calls.append(args[:3])
+            if fails:
+                return 0x200
+            a3 = strip(node["a"][3])
+            I.write(p, I.canon(p, lvalue_key(a3["e"], I.fn)), Ptr("ROOT"))
+            return 0
+        ov = {"KSI_AggregationHashChainList_aggregate": aggregate}
+        inputs = {ip: Ptr("INFO"), "INFO->ctx": Ptr("ctx"), "INFO->signature": Ptr("SIG"), "INFO->tempData": Ptr("TMP"), "INFO->docAggrLevel": 3,
+                  "SIG->aggregationChainList": Ptr("CHAINS"), "TMP->aggregationOutputHash": Ptr("OLDROOT") if have else 0}
+        hs = unit_helpers(prog, fn) - set(ov)
+        I = Interp(fn, inputs=inputs, call_model=inline_model(prog, hs, fallback=succeed_model(prog, ov)) if hs else succeed_model(prog, ov), on_unknown="stop", prog=prog)
+        paths = I.run()
+        chk.paths += len(paths)
+        inst = "initAggregationOutputHash[%s]" % label
+        if len(paths) != 1 or paths[0].undetermined or not isinstance(paths[0].ret, int):
+            raise AnalysisBroken("%s: evaluation not determined: %s" % (inst, [q.undetermined[:1] for q in paths]))
+        q = paths[0]
+        root = I.read(q, "TMP->aggregationOutputHash")
+        if fails:
+            ok, want = q.ret != 0, "an error status"
+        elif have:
+            ok, want = q.ret == 0 and root == Ptr("OLDROOT") and not calls, "KSI_OK and the root kept"
+        else:
+            ok, want = q.ret == 0 and root == Ptr("ROOT") and calls == [[Ptr("CHAINS"), Ptr("ctx"), 3]], "KSI_OK and the root of the signature's chains at the document level"
+        chk.ob("C04.aggout", inst, ok, "expected %s; source: status %s, root %s, fold calls %s" % (want, hex(q.ret), root, calls), loc=fn.loc(), fn=fn, nontrivial=fails)
